@@ -1,4 +1,7 @@
 import PyYetiVerif.Model.Op4
+import PyYetiVerif.Model.Op4Ascii
+import PyYetiVerif.Model.Op4Variants
+import PyYetiVerif.Model.PyFloat
 /-! Line protocol for C04 (all numbers decimal, byte strings hex).
 
   cs i0 i1 …                      → `s:l s:l …`                       (`_sparse_col_stats`)
@@ -8,6 +11,22 @@ import PyYetiVerif.Model.Op4
   dec <d|s|a> <hex>               → decoded matrices (see `showDec`)    (`load`)
   dir <hex>                       → `name,rows,cols,form,mtype|…`       (`dir`)
   fmt <digits> <bits>             → hex of `numform % x`
+  adec <d|s|a|*> <hex>            → the ASCII reader model (Model/Op4Ascii.lean) on the text: decoded
+                                    matrices as for `dec` (fields → exact decimal → nearest double by the
+                                    correctly rounded `PyFloat.toBits`) | `decode-error` | `not-ascii`;
+                                    mode `*`: the three modes and `adir`, separated by ` ;; `
+  adir <hex>                      → `name,rows,cols,form,mtype|…` of an ASCII file            (`dir`)
+  afld <hex>                      → `float(field)`: `neg man exp bits` | `ValueError`
+  aint <hex>                      → `int(field)`: the integer | `ValueError`
+  ahdr <hex>                      → title line: `cols rows form mtype namehex perline numlen` | `eof` | `ValueError`
+  asl <numlen> <k> <hex>          → the reader's `k` slices of width `numlen`, hex, comma separated
+  enca <perline> <width> <useD> <lead1P> <fmtD> <lower> <n> amat…   → hex of an OUTPUT4 ASCII variant file
+     (the encoder `Op4V.encAFile` of Model/Op4Variants.lean, same protocol as the C11 driver)
+     amat = <namehex|-> <form> <cplx> <single> <rows> <ncols> <d|b|n> <negRows> <npresent>
+            { <col> <nstr> { <r0> <nvals> { <neg> <exp> <ndigits> digit… } } }
+  avals <cplx> <numlen> <L> <hex> → `_put_ascii_values_sparse[_c]`: bit patterns read from the block | `ValueError`
+  ablk <dformat> <L> <perline> <numlen> <hex>
+                                  → `_get_ascii_block` on the text: `<hex of block> <lines consumed>`
 
   mat = <opt a|d|b|n><kind 0 ndarray|1 scipy-sparse> <index> <namehex|-> <form|-> <cplx 0|1> <rows> <ncols>
         then rows*ncols elements column-major, one (real) or two (complex) bit patterns each.
@@ -42,6 +61,8 @@ def unhex : List Char → Option (List Nat)
     let r ← unhex t
     some ((x * 16 + y) :: r)
   | _ => none
+
+def unhexTok (t : String) : Option (List Nat) := if t == "-" then some [] else unhex t.toList
 
 def hexDigit (n : Nat) : Char := if n < 10 then Char.ofNat (48 + n) else Char.ofNat (87 + n)
 
@@ -161,6 +182,83 @@ def showDir : Nat → List (List Nat × Int × Int × Int × Int) → List Strin
   | _, [] => []
   | i, (n, r, c, f, t) :: rest => s!"{toHex (checkName i n)},{r},{c},{f},{t}" :: showDir (i + 1) rest
 
+/-! ASCII reader: a decimal becomes the nearest double (`float()`), a complex element is built as
+`real + 1j * imag` in Python complex arithmetic (`cooEntry`; NaN real part when the imaginary part
+overflowed to ±inf), in the dense and in the sparse read -/
+def decBits (x : PyYetiVerif.Op4A.Dec10) : Nat :=
+  if x.exp.natAbs > 6000 then (if x.exp < 0 ∨ x.man = 0 then PyYetiVerif.PyFloat.toBits x.neg 0 1 else PyYetiVerif.PyFloat.infBits x.neg)
+  else if x.exp ≥ 0 then PyYetiVerif.PyFloat.toBits x.neg (x.man * 10 ^ x.exp.toNat) 1
+  else PyYetiVerif.PyFloat.toBits x.neg x.man (10 ^ (-x.exp).toNat)
+
+def entryBits (cplx : Bool) (x : PyYetiVerif.Op4A.AEntry) : Entry :=
+  let im := decBits x.2
+  -- an imaginary part that overflows to ±inf: `1j * inf = (0*inf - 0) + inf j`, the real part is the default NaN
+  if cplx ∧ im % 9223372036854775808 = 9218868437227405312 then (0xFFF8000000000000, im) else
+  cooEntry cplx (decBits x.1, if cplx then im else 0)
+
+def showDecA (mode : Char) (count : Nat) (d : PyYetiVerif.Op4A.ADec) : String :=
+  let cplx := decide (3 ≤ d.mtype)
+  let rows := d.rows.natAbs
+  let cols := d.cols.toNat
+  let sparse := match mode with
+    | 's' => true
+    | 'd' => false
+    | _ => d.sparseAuto
+  let name := toHex (checkName count (d.rawName.map Char.toNat))
+  let head := s!"{name},{rows},{cols},{d.form},{d.mtype},{if sparse then 1 else 0},"
+  if sparse then
+    if d.puts.any (fun p => p.1 + p.2.2.length > rows ∨ p.2.1 ≥ cols) then head ++ "put-error" else
+    head ++ " ".intercalate ((PyYetiVerif.Op4A.cooOfPutsA d.puts).map fun (r, c, x) =>
+      s!"{r} {c} {showEntry cplx (entryBits cplx x)}")
+  else
+    match PyYetiVerif.Op4A.applyPutsA rows cols d.puts with
+    | some X => head ++ " ".intercalate (X.flatMap fun col => col.map fun x => showEntry cplx (entryBits cplx x))
+    | none => head ++ "put-error"
+
+def showAllA (mode : Char) : Nat → List PyYetiVerif.Op4A.ADec → List String
+  | _, [] => []
+  | i, d :: t => showDecA mode i d :: showAllA mode (i + 1) t
+
+def intP : P Int := do
+  match (← tok).toInt? with
+  | some n => pure n
+  | none => failure
+
+def flagP : P Bool := do pure ((← nat) == 1)
+
+def countedP {α} (p : P α) : P (List α) := do
+  let n ← nat
+  repeatP p n
+
+def amatP : P PyYetiVerif.Op4V.AMat := do
+  let nm ← tok
+  let name ← if nm == "-" then pure [] else match unhex nm.toList with
+    | some b => pure b
+    | none => failure
+  let form ← nat
+  let cplx ← flagP
+  let single ← flagP
+  let rows ← nat
+  let ncols ← nat
+  let lay ← match (← tok) with
+    | "d" => pure Layout.dense
+    | "b" => pure Layout.bigmat
+    | "n" => pure Layout.nonbigmat
+    | _ => failure
+  let neg ← flagP
+  let cols ← countedP (do
+    let c ← nat
+    let ss ← countedP (do
+      let r0 ← nat
+      let xs ← countedP (do
+        let neg ← flagP
+        let exp ← intP
+        let ds ← countedP nat
+        pure ({ neg, digits := ds, exp } : PyYetiVerif.Op4V.ADec))
+      pure (r0, xs))
+    pure (c, ss))
+  pure { name, form, cplx, single, rows, ncols, lay, negRows := neg, cols }
+
 def endianOf (s : String) : Option Endian :=
   if s == "l" then some .little else if s == "b" then some .big else none
 
@@ -198,6 +296,12 @@ def answer (line : String) : String :=
       | some bytes, [m] => match decodeFormat bytes with
           | some e =>
             let ws := wordsOfBytes e bytes
+            -- the dense read goes through `decodeBytes`, the function `file_roundtrip_bytes` is about
+            match (if m == 'd' then decodeBytes bytes else none) with
+            | some rs => "ok " ++ "|".intercalate (rs.map fun r =>
+                s!"{toHex r.name},{r.rows},{r.cols},{r.form},{r.mtype},0," ++
+                  " ".intercalate (r.data.flatMap fun col => col.map (showEntry (r.mtype == 4))))
+            | none =>
             match rdFile e (ws.length + 1) ws with
             | some ds => "ok " ++ "|".intercalate (showAll m 0 ds)
             | none => "decode-error"
@@ -213,6 +317,76 @@ def answer (line : String) : String :=
             | .truncated => "exception:error"
           | none => "not-binary32"
       | none => "bad-op"
+  | ["adec", mode, hex] => match unhex hex.toList, mode.toList with
+      | some bytes, [m] =>
+        let cs := bytes.map Char.ofNat
+        if !PyYetiVerif.Op4A.isAsciiFile cs then "not-ascii" else
+        if m == '*' then
+          -- the three read modes and the directory in one reply
+          let ld := PyYetiVerif.Op4A.loadAscii cs
+          let one := fun (m : Char) => match ld with
+            | some ds => "ok " ++ "|".intercalate (showAllA m 0 ds)
+            | none => "decode-error"
+          let dr := match PyYetiVerif.Op4A.dirAscii cs with
+            | some ds => "ok " ++ "|".intercalate (showDir 0 (ds.map fun (n, r) => (n.map Char.toNat, r)))
+            | none => "decode-error"
+          " ;; ".intercalate [one 'd', one 's', one 'a', dr]
+        else
+        match PyYetiVerif.Op4A.loadAscii cs with
+        | some ds => "ok " ++ "|".intercalate (showAllA m 0 ds)
+        | none => "decode-error"
+      | _, _ => "bad-op"
+  | ["adir", hex] => match unhex hex.toList with
+      | some bytes =>
+        let cs := bytes.map Char.ofNat
+        if !PyYetiVerif.Op4A.isAsciiFile cs then "not-ascii" else
+        match PyYetiVerif.Op4A.dirAscii cs with
+        | some ds => "ok " ++ "|".intercalate (showDir 0 (ds.map fun (n, r) => (n.map Char.toNat, r)))
+        | none => "decode-error"
+      | none => "bad-op"
+  | ["afld", hex] => match unhexTok hex with
+      | some bytes => match PyYetiVerif.Op4A.pyFloat? (bytes.map Char.ofNat) with
+          | some x => s!"{if x.neg then 1 else 0} {x.man} {x.exp} {decBits x}"
+          | none => "ValueError"
+      | none => "bad-op"
+  | ["aint", hex] => match unhexTok hex with
+      | some bytes => match PyYetiVerif.Op4A.pyInt? (bytes.map Char.ofNat) with
+          | some x => toString x
+          | none => "ValueError"
+      | none => "bad-op"
+  | ["ahdr", hex] => match unhexTok hex with
+      | some bytes => match PyYetiVerif.Op4A.rdHeader (bytes.map Char.ofNat) with
+          | some (some h) => s!"{h.cols} {h.rows} {h.form} {h.mtype} {toHex (h.name.map Char.toNat)} {h.perline} {h.numlen}"
+          | some none => "eof"
+          | none => "ValueError"
+      | none => "bad-op"
+  | ["asl", n, k, hex] => match n.toNat?, k.toNat?, unhexTok hex with
+      | some n, some k, some bytes =>
+        ",".intercalate ((PyYetiVerif.Op4A.fields n k (bytes.map Char.ofNat)).map fun f => toHex (f.map Char.toNat))
+      | _, _, _ => "bad-op"
+  | "enca" :: ws => run (do
+        let perline ← nat
+        let width ← nat
+        let useD ← flagP
+        let lead1P ← flagP
+        let fmtD ← flagP
+        let lower ← flagP
+        let ms ← countedP amatP
+        pure (toHex ((PyYetiVerif.Op4V.encAFile { perline, width, useD, lead1P, fmtD, lower } ms).map Char.toNat))) ws
+  | ["avals", c, n, L, hex] => match c.toNat?, n.toNat?, L.toNat?, unhexTok hex with
+      | some c, some n, some L, some bytes =>
+        let g : PyYetiVerif.Op4A.Cfg := { dformat := false, cplx := c == 1, wper := 2, perline := 1, numlen := n }
+        match PyYetiVerif.Op4A.readVals g (bytes.map Char.ofNat) L with
+        | some es => " ".intercalate (es.map fun x => showEntry g.cplx (entryBits g.cplx x))
+        | none => "ValueError"
+      | _, _, _, _ => "bad-op"
+  | ["ablk", df, L, p, n, hex] => match df.toNat?, L.toNat?, p.toNat?, n.toNat?, unhexTok hex with
+      | some df, some L, some p, some n, some bytes =>
+        let g : PyYetiVerif.Op4A.Cfg := { dformat := df == 1, cplx := false, wper := 2, perline := p, numlen := n }
+        let ls := PyYetiVerif.Op4A.linesOf (bytes.map Char.ofNat)
+        let b := PyYetiVerif.Op4A.getBlock g L ls
+        s!"{toHex (b.1.map Char.toNat)}- {ls.length - b.2.length}"
+      | _, _, _, _, _ => "bad-op"
   | ["fmt", d, b] => match d.toNat?, b.toNat? with
       | some d, some b => toHex ((fmtE d b).map Char.toNat)
       | _, _ => "bad-op"
